@@ -68,6 +68,8 @@ fn main() {
         ("c13", "run") => c13::run(),
         ("c15", "gen") => c15::gen(seed, thorough),
         ("c15", "run") => c15::run(),
+        ("c15q", "gen") => c15::gen_q(seed, thorough),
+        ("c15q", "run") => c15::run_q(),
         ("c16", "gen") => c16::gen(seed, thorough),
         ("c16", "run") => c16::run(),
         ("c17", "gen") => c17::gen(seed, thorough),
